@@ -24,7 +24,7 @@ KINDS = ["missing_file", "corrupt_json", "corrupt_xlsx", "overload", "zero_imped
 def _rec(kind, ret, raised, exit_after, nan=False):
     return dict(op="infeasible", kind=kind, ret=bool(ret), raised=raised is not None, raised_text=raised,
                 exit_before=0, exit_after=int(exit_after), state_unchanged=True, residual_ok=True, nan=bool(nan),
-                pf_after="none", tds_init=False, tcls="neg", busted=False, pf_equal_first=True, nominal=True)
+                pf_after="none", tds_init=False, tcls="neg", busted=False, pf_equal_first=True, nominal=True, reset_outcome_ok=True)
 
 
 def run_one(sc):
